@@ -25,7 +25,7 @@ ASSUMPTIONS = ["the sub-project task has only FS/SS inputs (FF/SF inputs could h
                "parent unit_time = 1", "file system replaced by the in-memory open()"]
 LEVEL_TEXT = "Seeded exploration over sub-project results, unit pairs, positions in the parent workflow and parent absences."
 LEVEL_NOTE = "Trusted: harness observers, the ceil() reference formula; sampling evidence only."
-PROBES = ["configured_ok", "refusal_unsimulated", "refusal_failed", "remove_abs_true", "sub_with_absence", "sub_absence_beyond_end",
+PROBES = ["refusal_with_explicit_path", "configured_ok", "refusal_unsimulated", "refusal_failed", "remove_abs_true", "sub_with_absence", "sub_absence_beyond_end",
           "unit_ratio_gt1", "unit_ratio_lt1", "unit_ratio_non_integer", "parent_absence_during_subtask", "subtask_finished", "with_predecessor", "configured_twice", "sub_from_backward_simulation", "parent_json_roundtrip"]
 
 UNITS = [60, 120, 180, 420, 600, 1200, 3600, 86400, 129600]
@@ -69,7 +69,7 @@ def gen(rng, tier):
     subspec = {"model": subm, "cfg": subcfg, "ranks": G.gen_ranks(rng, subm), "file": "mem:sub.json", "simulate": mode != "unsimulated"}
     if mode == "ok" and rng.random() < 0.2:
         subspec["backward"] = {"due": False, "reverse": True}  # the sub-project result comes from a backward simulation
-    return {"sub": subspec, "parent_json": rng.random() < 0.25,
+    return {"sub": subspec, "parent_json": rng.random() < 0.25, "explicit_path": mode != "ok" and rng.random() < 0.5,
             "preconfigure": preconf, "mode": mode, "model": pm, "cfg": pcfg, "ranks": G.gen_ranks(rng, pm), "profile": pp}
 
 
@@ -108,13 +108,19 @@ def run(spec):
         # the task is configured twice: first with the opposite remove flag, then with the intended one (the last call counts)
         res.count("configured_twice")
         D.call(lambda: task.set_all_attributes_from_json(remove_absence_time_list=not remove))
+    ckw = {}
+    if spec.get("explicit_path") and not (sub.get("simulate", True) and int(sp.status) == 1):
+        # the refused file is named in the call; the task's own file_path is another one and must stay what it is
+        res.count("refusal_with_explicit_path")
+        task.file_path = "mem:own.json"
+        ckw["file_path"] = sub["file"]
     before = dict(task.__dict__)
     before_repr = {k: repr(v) for k, v in before.items() if k != "_rank"}
     with warnings.catch_warnings(record=True) as wlist:
         warnings.simplefilter("always")
         prev = seams.CUR
         try:
-            ret = task.set_all_attributes_from_json(remove_absence_time_list=remove)
+            ret = task.set_all_attributes_from_json(remove_absence_time_list=remove, **ckw)
             exc = None
         except Exception as e:  # SUT exception
             ret, exc = None, e
